@@ -178,7 +178,7 @@ def universe(tier, seed, shard, nshards):
             psis = [None, 1, (0, 1, 0, 0), (0, 0, 0, 1), (1, 0, 1, 0), (0, 0, 0, c), (0, r, 0, 0), (1, 1, 0, 0), (0, 1, 0, 1), (1, 0, 0, 0), (0, 0, 1, 0)]
             for w in (None, 1, 2):
                 for pen in (None, 0.5, 2):
-                    for ms in (None, 1.2):
+                    for ms in (None, univ.max_step2(seed)):
                         for inner in ('sq', 'eu'):
                             for psi in psis:
                                 if psi is not None:
@@ -265,7 +265,7 @@ def run(ctx):
              '(steps, band, max_step, relaxed corners) and its accumulated cost must equal the reference distance and the reported distance; '
              'non-trivial = more than one admissible path and penalty, psi or band active',
         bounds={'alphabet': list(univ.alphabet(univ.BASE3, ctx.seed)),
-                'U1': 'all pairs len 1..3 x window{None,1,2} x penalty{None,.5,2} x max_step{None,1.2} x inner x 11 psi forms; custom start from every finite cell',
+                'U1': 'all pairs len 1..3 x window{None,1,2} x penalty{None,.5,2} x max_step{None, 2|a| (separates squared from unsquared comparisons)} x inner x 11 psi forms; custom start from every finite cell',
                 'U3': 'all shapes up to %d x every window x 9 psi forms x catalogue values' % (6 if ctx.thorough else 5), 'U4': 'ndim 2, len 1..2', 'U5': 'long thin bands: every shape up to 12x12 with max >= 7, windows 1..3, 6 psi forms'},
         assumptions=['engines may return different optimal paths: no path equality is demanded', 'cases without any admissible path (reference inf) are not judged'],
         t0=ctx.t0)
